@@ -1054,6 +1054,14 @@ def sequence_types_agree(repo, rep):
                     subj, tys = _isinstance_types(t)
                     if pol and subj == ps[0]:
                         passed |= tys & SEQ
+                    # `x is None or isinstance(x, (list, tuple))` holds:
+                    # each disjunct may be the one that does
+                    if pol and isinstance(t, ast.BoolOp) and \
+                            isinstance(t.op, ast.Or):
+                        for v in t.values:
+                            subj, tys = _isinstance_types(v)
+                            if subj == ps[0]:
+                                passed |= tys & SEQ
         if not passed:
             continue
         n_norm += 1
